@@ -2,6 +2,7 @@
 import itertools
 
 ID = "C03"
+EXTRA_PROPS = ["TermOpsTables"]   # create_engine_with_case as TRANSLATED from src/engine/factory.rs = decodeTerm (Props/TermOpsTables.lean)
 N_QUICK, N_THOROUGH = 5000, 60000
 STRICT_MODEL = True
 RULE = ("one term (or one regex) x a list of texts per case; terms = operator prefix x body x '$' suffix over "
